@@ -4,11 +4,33 @@ import json, subprocess, os
 
 BASELINE = json.load(open('/root/.vp/BASELINE.json'))['cmd']
 
+TECH_NOTE = "Common assumptions: go/ssa faithfulness, the engine's SMT encoding, solver soundness, mathematical integers (no overflow check), time as integer nanoseconds, assumed contracts of k8s/controller-runtime/logr/fmt functions (listed per run in evidence.coverage.trusted_base), goroutines not modelled."
+
 CLAIMED = {
- # id: (level text, level_note, design_ref)
+ "C03": ("Contract proofs on the real code: CalculatePodToCreateAndDelete equals the budget formula for all integer inputs (exact functional postcondition), the budget lemma (available pods deleted <= max(0, maxUnavailable - U), total <= max(0, maxUnavailable)) is an SMT-checked lemma, and ManageDeployment is proved, for every node/pod map, every map iteration order and every API failure, to delete at most max(0, maxUnavailable) pods, only pods that exist, are not terminating and are outdated, and none on a canary node. Availability = readiness is a proved contract of IsPodAvailable.",
+         "NOT decided by this check: the selection order inside the budget ('already-unavailable pods first'): the delete list is a prefix in map order and the clause needs a counting argument the engine cannot refute or prove; it is deliberately not asserted (DESIGN.md 6). compareCurrentPodWithNewPod is an uninterpreted deterministic predicate here (its internals are C10). " + TECH_NOTE,
+         "DESIGN.md 5 C03"),
+ "C04": ("Per-role contract proofs: retrieveReplicaSetStatus derives the role exactly as documented (active / canary / unknown) for every ExtendedDaemonSet status; ManageDeployment never plans a creation or deletion on a node named in status.canary.nodes (they are removed from the map before planning; proved with a loop invariant for every list); ManageUnknown plans no creation and no deletion; manageStatus records the canary replica set and keeps the node list.",
+         "Not covered yet: the canary role's own planning (manageCanaryStatus creates only on canary nodes), node selection (C15) and the canary label patches. " + TECH_NOTE,
+         "DESIGN.md 5 C04"),
  "C05": ("Contract proof on the real selectCurrentReplicaSet and the predicates it calls: the postcondition transcribed from the promotion rule (only-if direction, plus adoption when the active replica set is missing, failed/manual/paused never promoted by time) is discharged for all inputs by SMT from VCs generated over go/ssa of the working tree. This is the right level because the property is a statement about one call for every combination of strategy, timestamps, annotations and conditions.",
-         "Assumes the external contracts of time.Time/metav1.Time (integer nanoseconds, no saturation) and ObjectMeta getters; assumes the ExtendedDaemonSet passed validation (manual mode has no duration) and ValidationMode is auto or manual (CRD enum). Not claimed: the data flow from the selector's result to status.activeReplicaSet inside updateInstanceWithCurrentRS, and the ordering of replica-set sync vs ExtendedDaemonSet reconcile (the contract quantifies over every state either order can produce).",
+         "Assumes the ExtendedDaemonSet passed validation (manual mode has no duration) and ValidationMode is auto or manual (CRD enum). Not claimed: the data flow from the selector's result to status.activeReplicaSet inside updateInstanceWithCurrentRS, and the ordering of replica-set sync vs ExtendedDaemonSet reconcile (the contract quantifies over every state either order can produce). " + TECH_NOTE,
          "DESIGN.md 5 C05"),
+ "C07": ("Contract proofs of the rollback ingredients: manageStatus clears status.canary, sets state 'Canary Failed' and leaves activeReplicaSet untouched whenever the canary is failed; selectCurrentReplicaSet keeps the active replica set for a failed canary (C05 fix); shouldDeleteERS refuses deletion for two minutes after Canary-Failed and otherwise only for all-zero status; cleanupReplicaSet is proved over the ghost API call log to issue only Delete calls, only for listed replica sets that are neither current nor up-to-date and that shouldDeleteERS accepts, on every error path.",
+         "Not covered yet: the status-then-spec write order inside updateInstanceWithCurrentRS and the eventual replacement of canary pods (liveness, see C02). " + TECH_NOTE,
+         "DESIGN.md 5 C07"),
+ "C08": ("Contract proofs: ManageDeployment returns IsPaused/IsFrozen exactly as the annotations say, plans no update-deletion when paused or frozen and no creation when frozen (for every map, iteration order, API failure); selectCurrentReplicaSet never promotes a paused canary by elapsed time; nonCanaryState/manageStatus produce the documented state strings.",
+         "Not covered yet: 'no additional canary pod is created while paused' (manageCanaryStatus) and toggling histories (each reconcile is proved for every annotation combination instead). " + TECH_NOTE,
+         "DESIGN.md 5 C08"),
+ "C09": ("Contract proofs: calculateMaxCreation equals min(maxParallelPodCreation, (1 + t div interval) * increase) whenever the interval is positive and never exceeds maxParallelPodCreation; ManageDeployment's create list is bounded by that value and its delete list by maxUnavailable, for all inputs.",
+         "Not covered yet: the spacing of two acting syncs by reconcileFrequency (replica-set Reconcile gate). Percent values are resolved by the assumed GetValueFromIntOrPercent contract (exact for integers, uninterpreted for percent strings). " + TECH_NOTE,
+         "DESIGN.md 5 C09"),
+ "C14": ("Contract proofs of the status functions: manageStatus / manageCanaryStatusConditions / nonCanaryState compute desired, upToDate, state, reason and the Canary-Paused / Canary-Failed conditions as the documented function of their inputs (universally quantified postconditions); ManageDeployment and ManageUnknown are proved to report 0 <= available <= ready <= current (<= desired) and desired = number of targeted nodes, via loop invariants over the node map.",
+         "Not covered yet: the sums over replica sets in the ExtendedDaemonSet Reconcile, the canary role's counters, and quiescence (a reachability notion). " + TECH_NOTE,
+         "DESIGN.md 5 C14"),
+ "C16": ("Contract proofs: every Default* function keeps user-set values, fills the documented defaults, is idempotent and makes the IsDefaulted* recognisers true (full functional postconditions incl. frame); ValidateExtendedDaemonSetSpec rejects the three documented cases; and a safety sweep proves absence of nil dereference, index out of range, division by zero, nil-map write and failed type assertion in every function under contract (each from its stated precondition).",
+         "The sweep covers the functions under contract listed in the evidence, not the whole repository; reconcilers' glue code is not yet under contract. Fuzzing of the serialized spec is a different technique and not claimed; the contracts quantify over every decoded value instead. " + TECH_NOTE,
+         "DESIGN.md 5 C16"),
 }
 
 NOT_APPLICABLE = {
